@@ -63,6 +63,9 @@ structure PollEv where
   out : Bool := false
   err : Bool := false
   hup : Bool := false
+  /-- not an event but the other half of the environment at dispatch time: the write side (C05's
+      model) has the watcher armed for POLLOUT (`pevents & POLLOUT`, e.g. a queued write) -/
+  wantOut : Bool := false
   deriving Repr, DecidableEq
 
 inductive Ev
@@ -185,8 +188,8 @@ def readLoop (u : User) : Nat → St → St
 /-- uv__read, stream.c:1025-1157 -/
 def uvRead (u : User) (s : St) : St := readLoop u 32 { s with readPartial := false }
 
-/-- uv__stream_io, stream.c:1189-1242 (no connect_req; nothing queued on the write side, so the
-    POLLOUT part does nothing observable here) -/
+/-- uv__stream_io, stream.c:1189-1242 (no connect_req; the POLLOUT|POLLERR|POLLHUP part runs the write
+    side, C05's model: it does not touch the read state and its callbacks perform no read ops here) -/
 def streamIo (u : User) (s : St) (ev : PollEv) : St :=
   let s := if ev.inn || ev.err || ev.hup then uvRead u s else s      -- 1207-1208
   if !s.fdOpen then s else                                           -- 1210-1211
@@ -196,11 +199,12 @@ def streamIo (u : User) (s : St) (ev : PollEv) : St :=
 
 /-- one epoll event for the stream's descriptor in uv__io_poll, linux.c:1515-1569 -/
 def ioPoll (u : User) (s : St) (raw : PollEv) : St :=
-  if !s.pollin then s else                       -- loop->watchers[fd] == NULL (POLLOUT is never armed here)
-  let e : PollEv := { inn := raw.inn && s.pollin, out := false, err := raw.err, hup := raw.hup }   -- 1536
-  let bare := (e.err && !e.hup && !e.inn) || (e.hup && !e.err && !e.inn)                          -- 1553
-  let e := if bare then { e with inn := s.pollin } else e                                           -- 1554-1555
-  if e.inn || e.err || e.hup then streamIo u s e else s
+  if !(s.pollin || raw.wantOut) then s else      -- loop->watchers[fd] == NULL: pevents == 0
+  let e : PollEv := { inn := raw.inn && s.pollin, out := raw.out && raw.wantOut, err := raw.err, hup := raw.hup,
+                      wantOut := raw.wantOut }                                                      -- 1536
+  let bare := (e.err && !e.hup && !e.inn && !e.out) || (e.hup && !e.err && !e.inn && !e.out)      -- 1553
+  let e := if bare then { e with inn := s.pollin, out := raw.wantOut } else e                       -- 1554-1555
+  if e.inn || e.out || e.err || e.hup then streamIo u s e else s
 
 inductive Op
   | start | stop | close
